@@ -8,7 +8,7 @@ LT = 'pypose.lietensor.lietensor'
 
 def group_elem(env, g, name, **kw):
     """valid group element (unit quaternion, positive scale) in pypose layout, shape (dim,)"""
-    qreg = kw.get('qregimes', ('generic', 'identity', 'nearpi', 'small'))
+    qreg = kw.get('qregimes', ('generic', 'identity', 'nearpi', 'small', 'weps'))
     if g == 'SO3': return env.unitquat(name + 'q', regimes=qreg)
     if g == 'SE3': return env.cat(env.vec(name + 't', 3), env.unitquat(name + 'q', regimes=qreg))
     if g == 'RxSO3': return env.cat(env.unitquat(name + 'q', regimes=qreg), env.scalar(name + 's', positive=True))
